@@ -200,7 +200,17 @@ def c17_run(ctx):
                      ("np2d-axis-tuple", lambda: numpy.sum(a2, axis=(0, 1)), [carts]),
                      ("np3d-numpy.sum-noaxis", lambda: numpy.sum(a1.reshape(1, 2, 3)), [carts]),
                      ("np3d-axis2", lambda: numpy.sum(a1.reshape(1, 2, 3), axis=2), [carts[:3], carts[3:]]),
-                     ("np2d-axis0-keepdims13", lambda: a2.sum(axis=0, keepdims=True), [[carts[j], carts[j + 3]] for j in range(3)])]
+                     ("np2d-axis0-keepdims13", lambda: a2.sum(axis=0, keepdims=True), [[carts[j], carts[j + 3]] for j in range(3)]),
+                     # shapes with LENGTH-ONE axes: only the reduced axis disappears
+                     ("shape61-axis0", lambda: numpy.sum(a1.reshape(6, 1), axis=0), [carts]), ("shape61-axis1", lambda: a1.reshape(6, 1).sum(axis=1), [[c_] for c_ in carts]),
+                     ("shape16-axis1", lambda: numpy.sum(a1.reshape(1, 6), axis=1), [carts]), ("shape16-axis-1", lambda: a1.reshape(1, 6).sum(axis=-1), [carts]),
+                     ("shape16-axis0", lambda: a1.reshape(1, 6).sum(axis=0), [[c_] for c_ in carts]),
+                     ("shape213-axis0", lambda: numpy.sum(a1.reshape(2, 1, 3), axis=0), [[carts[j], carts[j + 3]] for j in range(3)]),
+                     ("shape213-axis2", lambda: a1.reshape(2, 1, 3).sum(axis=2), [carts[:3], carts[3:]]),
+                     ("shape213-axis1", lambda: a1.reshape(2, 1, 3).sum(axis=1), [[c_] for c_ in carts]),
+                     ("shape1-axis0", lambda: numpy.sum(a1[:1], axis=0), [carts[:1]]), ("shape11-noaxis", lambda: numpy.sum(a1[:1].reshape(1, 1)), [carts[:1]])]
+            want_shapes = {"shape61-axis0": (1,), "shape61-axis1": (6,), "shape16-axis1": (1,), "shape16-axis-1": (1,), "shape16-axis0": (6,), "shape213-axis0": (1, 3),
+                           "shape213-axis2": (2, 1), "shape213-axis1": (2, 3), "shape1-axis0": (), "shape11-noaxis": ()}
             for name, f, groups in cases:
                 n += 1
                 try:
@@ -210,6 +220,9 @@ def c17_run(ctx):
                     continue
                 if not isinstance(res, vector.Vector) or isinstance(res, vector.Momentum) != (fl == "m"):
                     problems.append((f"sum-type:{name}", f"{name} on {fl}:{sig} returns {type(res).__name__}"))
+                    continue
+                if name in want_shapes and tuple(numpy.asarray(res.x).shape) != want_shapes[name]:
+                    problems.append((f"sum-shape:{name}", f"{name} on {fl}:{sig}: result shape {tuple(numpy.asarray(res.x).shape)}, expected {want_shapes[name]}"))
                     continue
                 want = [fsum_cols(g, dim) for g in groups]
                 got_cols = [numpy.asarray(getattr(res, c_)).reshape(-1).tolist() for c_ in comp]
@@ -875,6 +888,13 @@ def module_state():
     return out
 
 
+def _sympy_vec(dim):
+    import sympy
+    import vector.backends.sympy as vs
+    x, y, z, t = sympy.symbols("x y z t", real=True)
+    return {2: lambda: vs.VectorSympy2D(x=x, y=y), 3: lambda: vs.VectorSympy3D(x=x, y=y, z=z), 4: lambda: vs.VectorSympy4D(x=x, y=y, z=z, t=t)}[dim]()
+
+
 def catalogue(r, tier):
     """list of (name, thunk) public calls, returning and raising, on all backends, incl. singular inputs"""
     out = []
@@ -895,6 +915,32 @@ def catalogue(r, tier):
             out.append((f"{tag}:{sig}:scale", lambda f=f: f() * 2.5))
             out.append((f"{tag}:{sig}:eq", lambda f=f: f() == f()))
             out.append((f"{tag}:{sig}:construct-bad", lambda: vector.obj(x=1.0)))
+            # REJECTED calls of every two-vector method (and the secondary-argument ones): wrong dimension, a non-vector, a vector of an
+            # incompatible backend (SymPy), arrays of mismatching length, a bad keyword / order string - whether a call returns or raises,
+            # and wherever inside the call it raises, the process-wide state is as before
+            bads = {"wrong-dim": lambda: C.obj_vec("g", other2, [1.0, 2.0]) if dim != 2 else C.obj_vec("g", ("xy", "z"), [1.0, 2.0, 3.0]),
+                    "number": lambda: 1.5, "none": lambda: None, "string": lambda: "x",
+                    "sympy": lambda: _sympy_vec(dim), "sympy3": lambda: _sympy_vec(3),
+                    "short-array": lambda: C.np_array("g", sig, rows[:2]), "short-awkward": lambda: C.ak_array("g", sig, rows[:3])}
+            combos = [(m, bname) for m in BIN_ALL + ["rotate_axis", "boost_beta3", "boostCM_of_beta3"] for bname in bads]
+            if tier != "thorough":
+                # quick tier: every (method, kind of bad operand) pair once across the operand groups (round robin)
+                ngroups = len(sigs) * len(mk)
+                gi = sigs.index(sig) * len(mk) + list(mk).index(tag)
+                combos = [c for j, c in enumerate(combos) if j % ngroups == gi]
+            for m, bname in combos:
+                mkbad = bads[bname]
+                if True:
+                    if m == "rotate_axis":
+                        out.append((f"{tag}:{sig}:{m}:rejected-{bname}", lambda f=f, m=m, mkbad=mkbad: getattr(f(), m)(mkbad(), 0.3)))
+                    else:
+                        out.append((f"{tag}:{sig}:{m}:rejected-{bname}", lambda f=f, m=m, mkbad=mkbad: getattr(f(), m)(mkbad())))
+            out.append((f"{tag}:{sig}:rotate_euler:bad-order", lambda f=f: f().rotate_euler(0.1, 0.2, 0.3, "xqz")))
+            out.append((f"{tag}:{sig}:to_Vector4D:bad-keyword", lambda f=f: f().to_Vector4D(bogus=1.0)))
+            out.append((f"{tag}:{sig}:to_Vector3D:two-keywords", lambda f=f: f().to_Vector3D(z=1.0, eta=0.5)))
+            out.append((f"{tag}:{sig}:scale:string", lambda f=f: f().scale("k")))
+            out.append((f"{tag}:{sig}:mul-vector", lambda f=f: f() * f()))
+            out.append((f"{tag}:{sig}:boostX:both", lambda f=f: f().boostX(beta=0.1, gamma=2.0)))
     out.append(("ctor:array", lambda: vector.array({"x": [1.0, 2.0], "y": [3.0, 4.0]})))
     out.append(("ctor:zip", lambda: vector.zip({"pt": [1.0, 2.0], "phi": [3.0, 4.0], "eta": [0.1, 0.2], "mass": [0.0, 1.0]})))
     out.append(("ctor:Array", lambda: vector.Array([{"x": 1.0, "y": 2.0}])))
